@@ -35,5 +35,5 @@ for o in res:
         first.setdefault(v["sig"], o["idx"])
         detail.setdefault(v["sig"], v["detail"])
 for sig, c in sorted(cnt.items()):
-    print(f"{'KNOWN ' if sig in known_open else '      '}{c:5d}  ep{first[sig]:<5d} {sig}\n              {detail[sig][:230]}")
+    print(f"{'KNOWN ' if sig in known_open else '      '}{c:5d}  ep{first[sig]:<5d} {sig}\n              {detail[sig][:int(os.environ.get("CENSUS_WIDTH", "230"))]}")
 print(len(cnt), "signatures;", sum(1 for o in res if o['status'] != 'ok'), "harness errors")
